@@ -87,6 +87,11 @@ def check(tier, seed):
             pa, pb = peak(ra), peak(rb)
             rows.append(dict(program=name, N=[na, nb], peak_sp=[pa, pb], tail_calls_emitted=ntail, outcome=[ioa["kind"], iob["kind"]]))
             bad = None
+            if "timeout" in (ioa["kind"], iob["kind"]) or sta in ("impl-timeout", "model-timeout"):
+                stats["timeouts"] = stats.get("timeouts", 0) + 1      # the clock, not the code: counted, not judged
+                for (_, r, _, _, _) in res:
+                    h.cleanup(r)
+                continue
             if not ioa["kind"].startswith("return 0") or not iob["kind"].startswith("return 0"):
                 bad = "a tail-recursive program does not complete: %s / %s (%s)" % (ioa["kind"], iob["kind"], (ra["err"] + rb["err"])[-300:])
             elif pa != pb:
